@@ -48,7 +48,7 @@ type C12Case struct {
 	Ext     []ExtSpec    `json:"ext,omitempty"`
 	Nodes   []C12Node    `json:"nodes"`
 	Edges   []C12Edge    `json:"edges"`
-	Outline bool         `json:"outline,omitempty"` // announce v2 tips as block outlines (else headers)
+	Outline bool         `json:"outline,omitempty"` // announce v2 tips by outline only (else header + outline)
 	// Excluded names a known finding whose shape the generator removed.
 	Excluded string `json:"excluded,omitempty"`
 }
@@ -330,7 +330,7 @@ func runC12(c C12Case, cs *kit.CaseStats) error {
 		if rounds%2 == 0 {
 			// tips keep being announced, as miners do
 			for _, n := range nodes {
-				n.sn.Announce(c.Outline)
+				n.sn.Announce(!c.Outline)
 			}
 		}
 	}
@@ -426,19 +426,28 @@ func runC12(c C12Case, cs *kit.CaseStats) error {
 			dom = t
 		}
 	}
+	// A v1 block cannot be announced (the v1 relay RPCs are gone; a relayed
+	// header that attaches to the receiver's tip triggers no download), so the
+	// premise "tips are announced" can only be met for v2 tips: the convergence
+	// half is asserted where the heavier tip is a v2 block.
 	if dom != nil {
 		cs.Class("one-branch-dominates")
-		for i := range nodes {
-			if finals[i] != dom {
-				return fmt.Errorf("quiescent after %v, yet node %d is on %v while %v is sufficiently heavier than every other branch of the cluster (started at %v; all tips: %v)", elapsed.Round(time.Millisecond), i, finals[i].Index(), dom.Index(), tipName(nodes[i].start), tipNames(finals))
+		if dom.Block.V2 == nil {
+			cs.Class("dominating-tip-is-v1(not-announceable)")
+		} else {
+			for i := range nodes {
+				if finals[i] != dom {
+					return fmt.Errorf("quiescent after %v, yet node %d is on %v while %v is sufficiently heavier than every other branch of the cluster (started at %v; all tips: %v)", elapsed.Round(time.Millisecond), i, finals[i].Index(), dom.Index(), tipName(nodes[i].start), tipNames(finals))
+				}
 			}
+			cs.Class("converged-on-dominating-branch")
 		}
 	} else {
 		cs.Class("near-tie")
 	}
 	for i := range nodes {
 		for j := range nodes {
-			if finals[j].Ledger.State.SufficientlyHeavierThan(finals[i].Ledger.State) {
+			if finals[j].Block.V2 != nil && finals[j].Ledger.State.SufficientlyHeavierThan(finals[i].Ledger.State) {
 				return fmt.Errorf("quiescent after %v, yet node %d's tip %v is sufficiently lighter than node %d's tip %v (all tips: %v)", elapsed.Round(time.Millisecond), i, finals[i].Index(), j, finals[j].Index(), tipNames(finals))
 			}
 		}
